@@ -123,7 +123,15 @@ def build_harness(race=False):
     if not os.path.exists(hs) or open(hs).read() != new:
         open(hs, "w").write(new)
     name = "harness-race" if race else "harness"
-    cmd = ["go", "build", "-tags", "verif"] + (["-race"] if race else []) + ["-o", os.path.join(BIN, name + ".new"), "."]
+    modfile = []
+    if os.path.abspath(REPO) != "/repo":
+        # another checkout of the repository (VERIF_REPO): same module file with the replace line redirected
+        os.makedirs(SCRATCH, exist_ok=True)
+        mod = open(os.path.join(VERIF, "harness", "go.mod")).read().replace("=> /repo", "=> " + os.path.abspath(REPO))
+        open(os.path.join(SCRATCH, "harness.mod"), "w").write(mod)
+        open(os.path.join(SCRATCH, "harness.sum"), "w").write(new)
+        modfile = ["-modfile=" + os.path.join(SCRATCH, "harness.mod")]
+    cmd = ["go", "build", "-tags", "verif"] + modfile + (["-race"] if race else []) + ["-o", os.path.join(BIN, name + ".new"), "."]
     rc, out = run(cmd, cwd=os.path.join(VERIF, "harness"), env=GOENV, timeout=1200)
     if rc != 0:
         return False, out
